@@ -923,6 +923,38 @@ pub fn run_c09(args: &Args, seed: u64, tier: &str, report: &Report) -> String {
         report.merge_local(&mut l);
         return rule.into();
     }
+    if let Some(c) = args.get("--expired") {
+        let mut l = Local::default();
+        l.distinct.insert(1);
+        l.distinct.insert(2);
+        let f: Vec<&str> = c.split('#').collect();
+        if f.len() == 3 {
+            let moves: Vec<String> = f[1].split_whitespace().map(|x| x.to_string()).collect();
+            if let (Some((g, p)), Some(limit)) = (build_game(f[0], &moves), Limit::parse(f[2])) {
+                let legal = p.legal_moves();
+                // wall-clock dependent: try a few times
+                for _ in 0..20 {
+                    l.evaluations += 1;
+                    let mut ps = PersistentState::new(1);
+                    match do_search(&g, &mut ps, &limit, 0) {
+                        Err((m, loc)) => {
+                            report.violation(Violation { monitor: "c09".into(), signature: format!("c09.expired-limit.panic@{}", short_loc(&loc)), what: m, replay_args: vec![], detail: J::Null });
+                            break;
+                        }
+                        Ok(out) => {
+                            if !legal.iter().any(|x| x.from == out.best.from && x.to == out.best.to && x.promo == out.best.promo) {
+                                report.violation(Violation { monitor: "c09".into(), signature: "c09.expired-limit.illegal-move".into(), what: out.best.uci(), replay_args: vec![], detail: J::Null });
+                                break;
+                            }
+                        }
+                    }
+                }
+            }
+        }
+        l.evaluations = l.evaluations.max(1);
+        report.merge_local(&mut l);
+        return rule.into();
+    }
     let triples = args.u64("--triples", if thorough { 3_000 } else { 130 });
     let max_polls = if thorough { 150 } else { 70 };
     let roots = corpus_roots();
@@ -936,8 +968,8 @@ pub fn run_c09(args: &Args, seed: u64, tier: &str, report: &Report) -> String {
         while heavy_done < 1 && heavy_tries < 3_000 {
             heavy_tries += 1;
             let Some(p) = quiescence_heavy(&mut rng) else { continue };
-            let polls = depth1_polls(&p, 40);
-            if !(3..40).contains(&polls) {
+            let polls = depth1_polls(&p, 16);
+            if !(3..16).contains(&polls) {
                 continue;
             }
             let t = Triple { fen: p.to_fen(EpConv::Always), moves: vec![], depth: 1, hash_mb: 1, warm: vec![] };
@@ -954,6 +986,56 @@ pub fn run_c09(args: &Args, seed: u64, tier: &str, report: &Report) -> String {
             if let Some((sig, what)) = r {
                 let k = what.split_whitespace().nth(3).unwrap_or("1").to_string();
                 report.violation(Violation { monitor: "c09".into(), signature: sig, what, replay_args: vec!["c09".into(), "--triple".into(), enc, "--k".into(), k], detail: J::Null });
+            }
+        }
+        report.merge_local(&mut l);
+        // An expired limit instead of a stop request: clocks and move times of a few milliseconds, which
+        // run out at the first between-iterations poll or inside an early iteration. Same observables
+        // except the H1 counters (which poll sees it first is up to the wall clock).
+        for _ in 0..(if thorough { 400 } else { 24 }) {
+            let Some((fen, moves, p)) = random_position(&mut rng, &roots, &mut l) else { continue };
+            let Some((g, _)) = build_game(&fen, &moves) else { continue };
+            let legal = p.legal_moves();
+            if legal.is_empty() {
+                continue;
+            }
+            let limit = match rng.below(3) {
+                0 => Limit::Clock(1 + rng.below(12), 1 + rng.below(12), 0, 0, *rng.pick(&[None, Some(1), Some(30)])),
+                1 => Limit::MoveTime(rng.below(4)),
+                _ => Limit::Clock(1 + rng.below(4), 1, 0, 0, None),
+            };
+            let mut ps = PersistentState::new(1);
+            if rng.chance(1, 2) {
+                std::thread::sleep(std::time::Duration::from_millis(rng.below(3)));
+            }
+            l.evaluations += 1;
+            l.feat("expired_limit_searches");
+            let before = game_fingerprint(&g);
+            let enc = format!("{fen}#{}#{}", moves.join(" "), limit.text());
+            l.distinct.insert(hash_str(&enc));
+            let verdict: Option<(String, String)> = match do_search(&g, &mut ps, &limit, 0) {
+                Err((m, loc)) => Some((format!("c09.expired-limit.panic@{}", short_loc(&loc)), format!("search with {} panicked: {m} at {loc} [{}]", limit.text(), p.to_fen(EpConv::Always)))),
+                Ok(out) => {
+                    if !legal.iter().any(|x| x.from == out.best.from && x.to == out.best.to && x.promo == out.best.promo) {
+                        Some(("c09.expired-limit.illegal-move".into(), format!("search with {} returned {} which is not legal in {}", limit.text(), out.best.uci(), p.to_fen(EpConv::Always))))
+                    } else if game_fingerprint(&g) != before {
+                        Some(("c09.position-modified".into(), "the position handed to the search changed".into()))
+                    } else {
+                        if out.infos.len() <= 1 {
+                            l.feat("expired_limit_seen_by_depth_2");
+                        }
+                        match do_search(&g, &mut ps, &Limit::Depth(3), 0) {
+                            Err((m, loc)) => Some((format!("c09.followup-panic@{}", short_loc(&loc)), format!("a later search on the same tables panicked: {m}"))),
+                            Ok(o2) => {
+                                let mut scratch = Local::default();
+                                judge_infos(&p, &o2.infos, Some(3), &mut scratch).map(|(sig, what)| (format!("c09.followup.{sig}"), what))
+                            }
+                        }
+                    }
+                }
+            };
+            if let Some((sig, what)) = verdict {
+                report.violation(Violation { monitor: "c09".into(), signature: sig, what, replay_args: vec!["c09".into(), "--expired".into(), enc], detail: J::Null });
             }
         }
         report.merge_local(&mut l);
